@@ -97,7 +97,10 @@ retry:
 				goto retry
 			}
 		case '\\':
-			if p.r == '\\' {
+			// A backslash escaped by the previous one cannot start a
+			// line continuation, but the one after it can again.
+			p.escBs = p.r == '\\' && !p.escBs
+			if p.escBs {
 			} else if p.peek() == '\n' {
 				p.bsp++
 				p.w, p.r = 1, escNewl
